@@ -170,7 +170,7 @@ func checkC08(c ProgCase, o *h.Obs) *h.Fail {
 	return nil
 }
 
-const ruleC08 = "rapid state machine over 5 Decimal variables (initially zero values, clean/dirty zeros and infinities, finite values): each step is drawn against the current state from set/copy/neg/abs/add/sub/mul/quo/fma/sqrt, SetPrec/SetMode/SetInf, SetMantExp/MantExp (offsets driving exponents to both range ends and back), SetInt/SetInt64/SetUint64/SetRat/SetFloat64/SetFloat, Parse (bases 0,2,8,10,16)/SetString/UnmarshalText/Scan on valid and invalid literals, GobEncode->GobDecode with valid and mutated payloads, read-only accessors (conversions, formatting, encoding, Cmp, predicates), SetBitsExp with fresh word slices (leading/low zero words) or the receiver's own BitsExp slice; receivers and operands drawn independently so every aliasing occurs. Sum-type steps are only scheduled between operands whose digit gap is bounded, quotients/roots at bounded precision (cost bounds). Invariant after every step on every variable: finite => non-empty mantissa, top word in [10^18,10^19), all words < 10^19, 1 <= MinPrec <= Prec, exponent in range; zero/inf => no mantissa, MantExp 0, MinPrec 0; valid mode/accuracy codes; pairwise Cmp == exact order of the values read back (equal digits/exponent <=> Cmp == 0); no panic other than ErrNaN; after Set/Neg/Abs/SetPrec/SetMantExp steps the receiver holds exactly the reference rounding of the operand (range rule included: a carry past MaxExp must give an infinity, not a wrapped finite value). Non-trivial = a run with at least one rounding step AND one aliased step AND one range-edge or decode step; distinct by program encoding."
+const ruleC08 = "rapid state machine over 5 Decimal variables (initially zero values, clean/dirty zeros and infinities, finite values): each step is drawn against the current state from set/copy/neg/abs/add/sub/mul/quo/fma/sqrt, SetPrec/SetMode/SetInf, SetMantExp/MantExp (offsets driving exponents to both range ends and back), SetInt/SetInt64/SetUint64/SetRat/SetFloat64/SetFloat, Parse (bases 0,2,8,10,16)/SetString/UnmarshalText/Scan on valid and invalid literals, GobEncode->GobDecode with valid and mutated payloads, read-only accessors (conversions, formatting, encoding, Cmp, predicates), SetBitsExp with fresh word slices (leading/low zero words) or the receiver's own BitsExp slice; receivers and operands drawn independently so every aliasing occurs. Sum-type steps are only scheduled between operands whose digit gap is bounded, quotients/roots at bounded precision (cost bounds). Invariant after every step on every variable: finite => non-empty mantissa, top word in [10^18,10^19), all words < 10^19, 1 <= MinPrec <= Prec, exponent in range; zero/inf => no mantissa, MantExp 0, MinPrec 0; valid mode/accuracy codes; pairwise Cmp == exact order of the values read back (equal digits/exponent <=> Cmp == 0); no panic other than ErrNaN; after Set/Neg/Abs/SetPrec/SetMantExp steps the receiver holds exactly the reference rounding of the operand (range rule included: a carry past MaxExp must give an infinity, not a wrapped finite value). TestC08Fma: single FMA calls from the C03 generator (products beyond the exponent range, addends 2^32 digits away, powers of ten, all aliasing shapes): z, x, y, u canonical afterwards. Non-trivial = a run with at least one rounding step AND one aliased step AND one range-edge or decode step; distinct by program encoding."
 
 var propC08 = &h.Prop[ProgCase]{ID: "C08", Rule: ruleC08, Gen: func(t *rapid.T) ProgCase { return genProg(t, sm.DefaultOpts()) }, Check: checkC08, Matchers: map[string]func(ProgCase) bool{}}
 
@@ -293,7 +293,7 @@ func checkC09(c ProgCase, o *h.Obs) *h.Fail {
 	return nil
 }
 
-const ruleC09 = "the C08 state machine with the receiver's precision forced to 0 before about 30% of the steps and receiver/operand modes drawn independently. About one step in eleven is a read-only accessor on a variable (Int, Int64, Uint64, Rat, Float64, Float32, Float, Text/Append in every format, Format, String, GobEncode, MarshalText, JSON, Cmp, the predicates and BitsExp), after which every variable must be bit-identical. Before each step all variables are snapshotted (form, sign, mantissa words, exponent, precision, mode, accuracy); after it: every variable that is not the receiver is bit-identical; the receiver's mode is unchanged unless the operation is SetMode or one documented to copy attributes (Copy, SetMantExp, MantExp's out-parameter, GobDecode into a precision-0 receiver), in which case it equals the argument's; the receiver's precision is unchanged unless it was 0 - then it must equal the documented value (max operand precision for Add/Sub/Mul/Quo/FMA, x's for Sqrt/Set/Neg/Abs, max(34,digits) for SetInt, 34 for SetInt64/SetUint64/strings, 17 for SetFloat64, ceil(prec*log10 2) for SetFloat, either documented reading for SetRat) - or the operation is SetPrec / attribute-copying. Enumerated on every run (TestC09Grid): the precision a precision-0 receiver gets from SetFloat for every big.Float precision 1..45000 (thorough: 120000) against ceil(p*log10 2) computed with a 60-digit constant, and SetInt's max(34, digits) for 1..400 digits. TestC09Ops runs single operations from the C01 generator (operands up to 24000 digits) under the operand-unmodified and sticky assertions only. Not asserted: empty Gob payload, corrupted payloads (C17), precision after a rejected literal, precision-0 SetBitsExp (unspecified). Non-trivial = a run containing a step whose receiver had precision 0 or whose operands' modes differ from the receiver's; distinct by program encoding."
+const ruleC09 = "the C08 state machine with the receiver's precision forced to 0 before about 30% of the steps and receiver/operand modes drawn independently. About one step in eleven is a read-only accessor on a variable (Int, Int64, Uint64, Rat, Float64, Float32, Float, Text/Append in every format, Format, String, GobEncode, MarshalText, JSON, Cmp, the predicates and BitsExp), after which every variable must be bit-identical. Before each step all variables are snapshotted (form, sign, mantissa words, exponent, precision, mode, accuracy); after it: every variable that is not the receiver is bit-identical; the receiver's mode is unchanged unless the operation is SetMode or one documented to copy attributes (Copy, SetMantExp, MantExp's out-parameter, GobDecode into a precision-0 receiver), in which case it equals the argument's; the receiver's precision is unchanged unless it was 0 - then it must equal the documented value (max operand precision for Add/Sub/Mul/Quo/FMA, x's for Sqrt/Set/Neg/Abs, max(34,digits) for SetInt, 34 for SetInt64/SetUint64/strings, 17 for SetFloat64, ceil(prec*log10 2) for SetFloat, either documented reading for SetRat) - or the operation is SetPrec / attribute-copying. Enumerated on every run (TestC09Grid): the precision a precision-0 receiver gets from SetFloat for every big.Float precision 1..45000 (thorough: 120000) against ceil(p*log10 2) computed with a 60-digit constant, and SetInt's max(34, digits) for 1..400 digits. TestC09Ops runs single operations from the C01 generator (operands up to 24000 digits) under the operand-unmodified and sticky assertions only; TestC09Fma does the same for single FMA calls from the C03 generator (products beyond the exponent range, sums that leave the range again), with twelve such cases enumerated in TestC09Grid. Not asserted: empty Gob payload, corrupted payloads (C17), precision after a rejected literal, precision-0 SetBitsExp (unspecified). Non-trivial = a run containing a step whose receiver had precision 0 or whose operands' modes differ from the receiver's; distinct by program encoding."
 
 var propC09 = &h.Prop[ProgCase]{ID: "C09", Rule: ruleC09, Gen: func(t *rapid.T) ProgCase {
 	o := sm.DefaultOpts()
@@ -386,6 +386,31 @@ func TestC09Grid(t *testing.T) {
 	}
 	h.AddExtra("C09", "precision_rule_grid_cases_enumerated", n)
 	h.AddExtra("C09", "giant_operands_untouched_cases", c09GiantOperands(t))
+	// FMA whose product lies beyond the exponent range with an addend of the same sign at the same end, so that the sum
+	// formed with shifted exponents leaves the range as well (seeded change C09-r11m1: u's exponent shifted in place and
+	// not put back on the early return): both ends, both signs, the addend must be bit-identical afterwards
+	{
+		cnt := 0
+		for _, low := range []bool{false, true} {
+			for _, neg := range []bool{false, true} {
+				for _, yd := range []string{"9999999999999999999", "95", "1"} {
+					c := C03Case{P: 1, M: 0}
+					xe, ye, ue := int64(1073741824), int64(1073741825), int64(model.MaxExp)
+					if low {
+						xe, ye, ue = -1073741824, -1073741826, int64(model.MinExp)
+					}
+					c.X = h.SpecOf(model.MkFinite(neg, "1", xe), 1, 0)
+					c.Y = h.SpecOf(model.MkFinite(false, yd, ye), uint(len(yd)), 0)
+					c.U = h.SpecOf(model.MkFinite(neg, "1", ue), 1, 0)
+					if f := propC09Fma.Check(c, new(h.Obs)); f != nil {
+						h.ReportGridFail(t, "C09", f, mustJSON(c))
+					}
+					cnt++
+				}
+			}
+		}
+		h.AddExtra("C09", "fma_out_of_range_sum_leaves_range_operands_untouched", cnt)
+	}
 	// the one receiver precision at which a temporary "precision + 1" does not fit, with an argument far enough out
 	// that an implementation might leave its exact path: precision and mode must be what they were
 	{
@@ -533,6 +558,62 @@ var propC09Ops = &h.Prop[C01Case]{ID: "C09", Rule: ruleC09, Gen: genC01, Check: 
 }, Matchers: map[string]func(C01Case) bool{}, Filter: func(string) bool { return false }}
 
 func TestC09Ops(t *testing.T) { propC09Ops.Search(t) }
+
+// TestC09Fma runs single FMA calls from the C03 generator (products beyond the exponent range, addends at the same end
+// of the range and of the same sign so that the shifted sum itself overflows or underflows, massive cancellation,
+// every aliasing shape) under the "operands are never modified, receiver precision and mode are sticky" assertions only.
+var propC09Fma = &h.Prop[C03Case]{ID: "C09", Rule: ruleC09, Gen: genC03, Check: func(c C03Case, o *h.Obs) *h.Fail {
+	if c.P == 0 {
+		return h.Failf("bad-case", "precision 0")
+	}
+	z, x, y, u, alias := fmaVars(c)
+	ops := []*decimal.Decimal{x, y, u}
+	before := []h.Snap{h.Read(x), h.Read(y), h.Read(u)}
+	h.CatchNaN(func() { z.FMA(x, y, u) })
+	o.Label("single-op:fma:alias=" + alias)
+	if fmaProductOutOfRange(c) {
+		o.Label("single-op:fma:product-out-of-range")
+		o.NonTrivial()
+	}
+	for i, d := range ops {
+		if d == z {
+			continue
+		}
+		if s := h.Read(d); !s.SameAll(before[i]) {
+			return h.Failf("operand-modified", "FMA changed operand %s: %v is now %v", []string{"x", "y", "u"}[i], before[i], s)
+		}
+	}
+	if zs := h.Read(z); zs.Prec != c.P || zs.Mode != c.M {
+		return h.Failf("prec-sticky", "FMA: receiver precision %d mode %v became %d %v", c.P, model.Mode(c.M), zs.Prec, model.Mode(zs.Mode))
+	}
+	return nil
+}, Matchers: map[string]func(C03Case) bool{}, Filter: func(string) bool { return false }}
+
+func TestC09Fma(t *testing.T) { propC09Fma.Search(t) }
+
+// TestC08Fma: the result of a single FMA from the C03 generator (products beyond the exponent range, addends 2^32 digits
+// away, exact powers of ten, every aliasing shape) is canonical, whatever path produced it (seeded change C08-r11m1: the
+// out-of-range helper no longer renormalising after a borrow).
+var propC08Fma = &h.Prop[C03Case]{ID: "C08", Rule: ruleC08, Gen: genC03, Check: func(c C03Case, o *h.Obs) *h.Fail {
+	if c.P == 0 {
+		return h.Failf("bad-case", "precision 0")
+	}
+	z, x, y, u, alias := fmaVars(c)
+	h.CatchNaN(func() { z.FMA(x, y, u) })
+	o.Label("single-op:fma:alias=" + alias)
+	if fmaProductOutOfRange(c) {
+		o.Label("single-op:fma:product-out-of-range")
+		o.NonTrivial()
+	}
+	for i, d := range []*decimal.Decimal{z, x, y, u} {
+		if s := h.Read(d); s.Malformed != "" {
+			return h.Failf("malformed", "after FMA the variable %s is not canonical: %v", []string{"z", "x", "y", "u"}[i], s)
+		}
+	}
+	return nil
+}, Matchers: map[string]func(C03Case) bool{}, Filter: func(string) bool { return false }}
+
+func TestC08Fma(t *testing.T) { propC08Fma.Search(t) }
 
 func TestC09(t *testing.T)       { propC09.Search(t) }
 func TestC09Replay(t *testing.T) { propC09.Replay(t) }
